@@ -350,6 +350,8 @@ def check_link(kind: str):
         dirs = [spec[k] for k in ("axis", "normal") if k in spec]
         ctx.nt(moved > 1e-3 and not any(xm.aligned(d) for d in dirs))
         ctx.label(f"moves={len(case['moves'])}")
+        if "nlen" in case and abs(case["nlen"] - 1) < 1e-5:
+            ctx.label("nearly-unit-normal")
 
     return check
 
